@@ -152,20 +152,47 @@ def reset_library_caches():
             pass
 
 
+class RunTimeout(BaseException):
+    """One simulated run used more real time than RUN_BUDGET seconds (normal runs take milliseconds)."""
+
+
+RUN_BUDGET = 20.0
+
+
+def _on_alarm(signum, frame):
+    raise RunTimeout()
+
+
 def execute_once(prop, plan, sched, variant, workdir):
     """One execution; returns the filled Ctx. Harness exceptions become HarnessError."""
+    import signal
+    import threading
     reset_library_caches()
     ctx = Ctx(sched, workdir)
     random.seed(mix("global-random", sched.seed))
     was = gc.isenabled()
     gc.disable()
+    armed = threading.current_thread() is threading.main_thread()
+    if armed:
+        old = signal.signal(signal.SIGALRM, _on_alarm)
+        signal.setitimer(signal.ITIMER_REAL, RUN_BUDGET)
     try:
         prop.execute(plan, ctx, variant)
     except HarnessError:
         raise
+    except RunTimeout:
+        # virtual-time and step caps bound everything the simulator schedules; what is left is the code under test
+        # spinning or blowing up inside one call (exponential work, endless loop): report it, it replays the same way
+        ctx.violate("%s|run-exceeded-real-time-budget" % prop.id,
+                    "one simulated run did not finish within %.0f s of real time (ordinary runs take milliseconds): the code under test loops or does explosive work in a single call" % RUN_BUDGET)
+    except MemoryError:
+        ctx.violate("%s|run-exhausted-memory" % prop.id, "the code under test exhausted the worker's address-space limit inside one simulated run")
     except BaseException as e:  # an exception escaping execute is a harness bug, not a finding
         raise HarnessError("%s escaped %s.execute: %r\n%s" % (type(e).__name__, prop.id, e, traceback.format_exc())) from e
     finally:
+        if armed:
+            signal.setitimer(signal.ITIMER_REAL, 0)
+            signal.signal(signal.SIGALRM, old)
         if was:
             gc.enable()
     return ctx
